@@ -48,10 +48,12 @@ PATTERNS = ["*.mwfn"]
 # D shell: D 0, D+1, D-1, D+2, D-2
 # F shell: F 0, F+1, F-1, F+2, F-2, F+3, F-3
 # G shell: G 0, G+1, G-1, G+2, G-2, G+3, G-3, G+4, G-4
+# H shell: H 0, H+1, H-1, H+2, H-2, H+3, H-3, H+4, H-4, H+5, H-5
 
 
 # fmt: off
 CONVENTIONS = {
+    (5, 'p'): HORTON2_CONVENTIONS[(5, 'p')],
     (4, 'p'): HORTON2_CONVENTIONS[(4, 'p')],
     (3, 'p'): HORTON2_CONVENTIONS[(3, 'p')],
     (2, 'p'): HORTON2_CONVENTIONS[(2, 'p')],
